@@ -36,13 +36,13 @@ package yubiattest
 //@   emAt(k, m, k - p1len(h) - hsize(h) - 1) == 0 &&
 //@   forall(j, 2 <= j && j < k - p1len(h) - hsize(h) - 1, emAt(k, m, j) == 255) &&
 //@   forall(j, 0 <= j && j < p1len(h), emAt(k, m, k - p1len(h) - hsize(h) + j) == p1at(h, j)) &&
-//@   forall(j, 0 <= j && j < hsize(h), emAt(k, m, k - hsize(h) + j) == d[doff + j])
+//@   forall(j, 0 <= j && j < hsize(h), emAt(k, m, k - hsize(h) + j) == at(d, doff, j))
 //@ ghost func wf2(k int, m int, h int, d bytes, doff int) bool =
 //@   emAt(k, m, 0) == 0 && emAt(k, m, 1) == 1 &&
 //@   emAt(k, m, k - p2len(h) - hsize(h) - 1) == 0 &&
 //@   forall(j, 2 <= j && j < k - p2len(h) - hsize(h) - 1, emAt(k, m, j) == 255) &&
 //@   forall(j, 0 <= j && j < p2len(h), emAt(k, m, k - p2len(h) - hsize(h) + j) == p2at(h, j)) &&
-//@   forall(j, 0 <= j && j < hsize(h), emAt(k, m, k - hsize(h) + j) == d[doff + j])
+//@   forall(j, 0 <= j && j < hsize(h), emAt(k, m, k - hsize(h) + j) == at(d, doff, j))
 //@ ghost func pkcsOK(pub *rsa.PublicKey, hash int, hashed []byte, sig []byte) bool =
 //@   len(hashed) == hsize(hash) && kOf(pub) >= p1len(hash) + hsize(hash) + 11 &&
 //@   (wf1(kOf(pub), mOf(pub, sig), hash, elems(hashed), off(hashed)) || wf2(kOf(pub), mOf(pub, sig), hash, elems(hashed), off(hashed)))
